@@ -474,6 +474,17 @@ func ScaledFamilies(big bool) []Scaled {
 		add(fmt.Sprintf("jump-or-taken-%d", T), "print 7 or "+body)
 		add(fmt.Sprintf("jump-or-fallthrough-%d", T), "def b { x = nil or "+body+" }")
 	}
+	// a long operand in the MIDDLE of an and/or chain (a jump that is threaded past the following operator's own jumps
+	// travels a few bytes further than the operand is long): operand sizes right below the 16-bit limit
+	for T := 65524; T <= 65536; T++ {
+		first, terms := "1", (T-2)/2
+		if T%2 == 1 {
+			first, terms = "2", (T-3)/2
+		}
+		body := first + rep("+1", terms)
+		add(fmt.Sprintf("jump-andor-%d", T), "print false and "+body+" or 5\nprint 3 and "+body+" or 6")
+		add(fmt.Sprintf("jump-orand-%d", T), "def b { x = 7 or "+body+" and 5; y = nil or "+body+" and 0 }")
+	}
 	// repeat counts
 	add("repeat-neg", `print "ab" * -1`)
 	add("repeat-neg-var", `var n = 0-3; print "ab" * n`)
